@@ -10,6 +10,8 @@ LEAN_MODULES = ['AsynqModel.Theorems.C07', 'AsynqModel.Theorems.C07b', 'AsynqMod
 THEOREMS = ["AsynqModel.Core." + n for n in ['C07_saverestore', 'C07_saverestore_task', 'C07_exited_paused', 'C07_all_paused_at_top', 'C07_lifo_of_norevisit', 'C07_values_of_norevisit', 'C07_restored_of_norevisit', 'C07_svals_zero_of_norevisit', 'C07_norevisit_of_cold', 'C07b_final_reachNR', 'C07_noRevisit', 'C07_lifo', 'C07_values', 'C07_restored_at_top', 'C07_svals_zero', 'C07b_final_ws', 'Spec_C07_accepts', 'Spec_C07_accepts_ws', 'Spec_C07_accepts_run', 'Spec_C07_read_value']]
 LEAN_MODULES = LEAN_MODULES + ['AsynqModel.Theorems.C07c']
 THEOREMS = THEOREMS + ["AsynqModel.Core." + n for n in ['C07_reads_sequential', 'C07_reads_sequential_at', 'C07_reads_complete', 'C07_read_env', 'C07_block_restores', 'C07_reference_conservative']]
+LEAN_MODULES = LEAN_MODULES + ['AsynqModel.Theorems.NoNA']
+THEOREMS = THEOREMS + ["AsynqModel.Core." + n for n in ['C07_lifo_any', 'C07_lifo_needs_noNonAsync', 'C07_values_any', 'C07_restored_at_top_any', 'C07_all_paused_at_top_any', 'Spec_C07_accepts_any', 'Spec_C07_read_value_any']]
 MIX = [('yield_ctx',5),('full',3)]
 RULE = ("grammar-generated task programs (profiles %s; trees and DAGs of tasks, 1-3 batch kinds with priority overrides "
         "and raising flushes, nested yield structures, errors, try/except, synchronous re-entry, contexts) interpreted on "
